@@ -69,12 +69,16 @@ H_WellFormed ==
 (* Layer P - state predicates                                              *)
 
 \* C02: heads are exactly the unreferenced entries; every accessor agrees
+\* scope: pure replicas, and replicas that themselves only appended and merged without bound - whatever they merged
+\* from - as long as what they hold is a causally closed set of genuine entries of their own log id
+InC02(o) == o.pure \/ (o.ownpure /\ o.bad = <<>> /\ ~o.mixed /\ ClosedIn(UU, S(o.ents))
+                       /\ \A x \in S(o.ents) : UU[x].lid = o.lid)
 C02_HeadsAreMaximal ==
-  \A r \in R : Obs[r].pure => S(Obs[r].heads) = MaximalOf(UU, S(Obs[r].ents))
+  \A r \in R : InC02(Obs[r]) => S(Obs[r].heads) = MaximalOf(UU, S(Obs[r].ents))
 C02_NonEmpty ==
-  \A r \in R : Obs[r].pure /\ Obs[r].ents # <<>> => Obs[r].heads # <<>>
+  \A r \in R : InC02(Obs[r]) /\ Obs[r].ents # <<>> => Obs[r].heads # <<>>
 C02_HeadsInLog ==
-  \A r \in R : Obs[r].pure => S(Obs[r].heads) \subseteq S(Obs[r].ents)
+  \A r \in R : InC02(Obs[r]) => S(Obs[r].heads) \subseteq S(Obs[r].ents)
 C02_AccessorsAgree ==
   \A r \in R : LET o == Obs[r] IN
     /\ S(o.heads) = S(o.rawheads) /\ S(o.heads) = S(o.snapheads) /\ S(o.heads) = S(o.jsonheads)
